@@ -11,6 +11,7 @@ SPEC = r"""
 // temporary registers: `#id`; poll hands out the current counter value and advances it; dropping a register gives it back
 #[verifier::external_body] pub struct Reg { x: usize }
 pub uninterp spec fn reg_id(r: &Reg) -> int;
+pub uninterp spec fn reg_owned(r: &Reg) -> bool;           // handed out by the allocator (backed by the counter), as opposed to a ghost register
 pub uninterp spec fn is_reg_arg(s: &VString) -> bool;       // the argument text is a temporary register `#k`
 impl ToVs for Reg {
     open spec fn as_num(&self) -> int { reg_id(self) }
@@ -20,14 +21,17 @@ impl ToVs for Reg {
 #[verifier::external_body] pub struct State { x: usize }
 pub uninterp spec fn count(s: &State) -> int;                // temporary_register_c
 #[verifier::external_body] pub fn poll_temporary_register(s: &mut State) -> (r: Reg)
-    ensures reg_id(&r) == count(old(s)), count(final(s)) == count(old(s)) + 1 { unimplemented!() }
+    ensures reg_id(&r) == count(old(s)), reg_owned(&r), count(final(s)) == count(old(s)) + 1 { unimplemented!() }
+// TemporaryRegister::new_ghost_register(id): a register name that is NOT backed by the counter (unsafe fn in ast.rs)
+#[verifier::external_body] pub fn new_ghost_register(id: usize) -> (r: Reg) ensures reg_id(&r) == id, !reg_owned(&r) { unimplemented!() }
+#[verifier::external_body] pub fn reg_id_of(r: &Reg) -> (i: usize) ensures i == reg_id(r) { unimplemented!() }
 
 #[verifier::external_body] pub struct Ident { x: usize }
 #[verifier::external_body] pub fn ident_name(i: &Ident) -> (r: VString) ensures !is_reg_arg(&r) { unimplemented!() }
 #[verifier::external_body] pub struct ValueV { x: usize }
 pub enum Value { Ident(Ident), Other(ValueV) }
 #[verifier::external_body] pub struct ExprV { x: usize }
-pub enum Expr { Value(Value), DotLookup { x: ExprV }, Index { x: ExprV }, Other(ExprV) }
+pub enum Expr { Value(Value), DotLookup { x: ExprV }, Index { x: ExprV }, BinOp { op: Op, x: ExprV }, Other(ExprV) }
 pub enum Op { Add, Subtract, Multiply, Divide, Modulo, Lt, Gt, Lte, Gte, Eq, Neq, And, Or, Xor, Unwrap, AddAssign, SubAssign, MulAssign, DivAssign, ModAssign, BinaryXor, BinaryOr, BinaryAnd, BitwiseLs, BitwiseRs, Is }
 pub uninterp spec fn op_symbol(o: Op) -> Seq<char>;
 #[verifier::external_body] pub fn op_symbol_vs(o: &Op) -> (r: VString) ensures text_of(&r) == op_symbol(*o), !is_reg_arg(&r) { unimplemented!() }
@@ -43,7 +47,7 @@ pub open spec fn writes_ok(out: Seq<CompiledItem>, d: int, c: int) -> bool {
 // the recursive call (any expression): assumed with the contract this arm is proved to establish itself (induction hypothesis)
 #[verifier::external_body]
 pub fn compile_depth(e: &Expr, s: &mut State, depth: Reg) -> (r: Result<Vec<CompiledItem>, VErr>)
-    requires reg_id(&depth) < count(old(s))
+    requires reg_id(&depth) < count(old(s)), reg_owned(&depth)          // the callee releases the register it is given: it must be one the allocator handed out
     ensures count(final(s)) == count(old(s)) - 1, r is Ok ==> writes_ok(r->Ok_0@, reg_id(&depth), count(old(s)))
 { unimplemented!() }
 #[verifier::external_body] pub fn vpanic() requires false { unimplemented!() }
@@ -104,13 +108,16 @@ def build(repo):
         Rule("R1", "lhs_raw . as_ref ( )", "lhs_raw", why="Box<Expr> deref"),
         Rule("R8", "unimplemented ! $a", "{ vpanic ( ) ; return Err ( VErr ) }", why="unimplemented!: a panic, unreachable only under the stated precondition on the operand shape"),
         Rule("R8", "unreachable ! $a", "{ vpanic ( ) ; return Err ( VErr ) }", why="unreachable!: a panic, unreachable only under the stated precondition on the operand shape"),
-        Rule("R10", "compile_depth ( $a , state , poll_temporary_register ( state ) )", "{ let verif_reg = poll_temporary_register ( state ) ; compile_depth ( $a , state , verif_reg ) }", count=2,
+        Rule("R1", "unsafe { $$e }", "{ $$e }", why="unsafe block marker dropped: the callee's contract carries what the caller must guarantee"),
+        Rule("R6", "TemporaryRegister :: new_ghost_register ( $$a )", "new_ghost_register ( $$a )", why="ghost register constructor (abstract: id given, not owned)"),
+        Rule("R1", "depth . id", "reg_id_of ( & depth )", why="TemporaryRegister.id field"),
+        Rule("R10", "compile_depth ( $a , state , $$r )", "{ let verif_reg = $$r ; compile_depth ( $a , state , verif_reg ) }", count=2,
              why="&Cell state -> &mut state: the register argument is evaluated into a local first (same evaluation order)"),
         # ghost
         Rule("R11", "let mut lhs = { $$b } ? ;", ["let mut lhs = { $$b } ? ;", G("let ghost l0 = lhs@; assume(lhs.len() < 0x1000_0000);")], count=1),
         Rule("R11", "let mut rhs = { $$b } ? ;", ["let mut rhs = { $$b } ? ;", G("let ghost r0 = rhs@; assume(rhs.len() < 0x1000_0000);")], count=1),
     ]
-    b = translate(arm["body"], rules, log, "compile_depth[BinOp]")
+    b = translate(inline_closures(arm["body"], log), rules, log, "compile_depth[BinOp]")
     # proof hints in front of every `return Ok(lhs)` / final `Ok(lhs)`
     hint = G("""proof {
     let out = lhs@; let p = l0.len() as int;
@@ -142,7 +149,7 @@ def build(repo):
 #[verifier::loop_isolation(false)]
 pub fn compile_depth_binop(lhs_raw: &Expr, op: &Op, rhs: &Expr, state: &mut State, depth: Reg) -> (r: Result<Vec<CompiledItem>, VErr>)
     requires
-        reg_id(&depth) < count(old(state)),
+        reg_id(&depth) < count(old(state)), reg_owned(&depth),
         // operand shapes the parser delivers for op-assign and `?=` (assumed; C16 concerns the panics behind them)
         is_assign_op(*op) ==> (lhs_raw is Value && lhs_raw->Value_0 is Ident) || lhs_raw is DotLookup || lhs_raw is Index,
         *op is Unwrap ==> lhs_raw is Value && lhs_raw->Value_0 is Ident,
